@@ -12,6 +12,8 @@ CHECKS = {
    text="All tuples through mac_structure_data, create_tag, try_create_tag and verify_tag on built and decoded messages; MAC/MAC0 separation; no-payload refusal without calling the closure."),
  "C05": dict(section="4.5", technique="exhaustive product of five contexts x protected forms x AAD length classes x ciphertext presence over every carrier and API route; byte equality with an independent deterministic encoder",
    text="All tuples through enc_structure_data, create_ciphertext / try_create_ciphertext / decrypt of Encrypt, Encrypt0 and recipients (top-level and nested) with each recipient context; non-recipient context and missing ciphertext refused; no two contexts collide; plaintext/ciphertext passed through."),
+ "C06": dict(section="4.6", technique="explicit-state breadth-first search over builder call sequences on the real builders with canonical-state de-duplication; every reached state is serialised, parsed back and verified with recording closures",
+   text="All call sequences up to depth 4 (quick) / 6 (thorough; 5 for COSE_Sign) of the seven message builders incl. every create / try / detached helper; at every state every non-stale created slot is verified after an untagged and a tagged wire round trip: the verifier closure gets exactly the stored value and exactly the creator's bytes, results pass through, every perturbation of AAD / payload / body protected / signer protected changes the bytes; failing creators yield their error and no message."),
  "C07": dict(section="4.7", technique="exhaustive bounded enumeration of structured inputs (explicit-state tree search); one-step fixed-point oracle on the real encoder/decoder",
    text="Every input of the structured spaces of C08/C09/C10/C12/C14/C15/C18 plus dedicated non-canonical families (all encodings within 2 deviations incl. bignum and indefinite forms) is decoded; for each accepted one: re-encode, re-decode, compare value (incl. retained protected bytes) and second encoding, tagged forms too."),
  "C08": dict(section="4.8", technique="exhaustive enumeration of bounded header maps (explicit-state tree search) with differential check against an independent reference decoder",
@@ -36,6 +38,8 @@ CHECKS = {
    text="from_i64/to_i64/Debug name/is_private compared with the refiana snapshot for every integer of the window in every registry, every snapshot row must be hit; classification through decoding at every label-typed position."),
  "C18": dict(section="4.18", technique="exhaustive enumeration of bounded claims maps and KDF-context arrays (explicit-state tree/product search) against an independent reference, with re-encode/decode of every accepted value",
    text="All claims maps with <= 3/4 entries over a ~105-pair alphabet; all PartyInfo / SuppPubInfo arrays of arity 0..4-5 over slot alphabets; all KDF contexts over (alg x party x party x supp x trailing) alphabets; accept/reject, fields (private KDF fields via builder-constructed expected value and via re-encoding) and fixed point."),
+ "C19": dict(section="4.19", technique="explicit-state breadth-first search over call sequences of all 14 real builders against a field-map model, conformance checked on every transition",
+   text="All call sequences up to depth 4 (quick) / 5 (thorough) for the large alphabets (header 27 ops, key 10 initial states x 22 ops, claims 33 ops, 8 message builders) and 5 / 7 for the small ones: build() after every transition equals the documented effect (setter replaces, adder appends, later wins, IV/Partial-IV exclusion, constructors), reserved labels are refused with a panic and every other label appended."),
  "C20": dict(section="4.20", technique="exhaustive enumeration of keys: typed-field subsets x every ordered selection of <= 3/4 extra labels from a 14-label palette x both orderings, in-memory and decoded",
    text="After canonicalize the emitted map keys (read by the independent parser) are strictly ascending under the chosen ordering, the pair set is unchanged, a second canonicalize is a no-op and decode/re-encode reproduces the bytes."),
 }
